@@ -1304,6 +1304,26 @@ fn cast_into_memory(
                 memory,
             ));
         }
+        // an integer literal too big for the default type has been given a 64-bit type of its
+        // own (`x : Err!i64 = 5000000000`): the type checker has made sure that the value fits
+        // the payload, it only has to be converted
+        (_, Ty::ErrorUnion { payload_ty, .. })
+            if cast_from.is_int() && payload_ty.is_int() =>
+        {
+            return Some(cast_payload_into_tagged_union(
+                meta_tys,
+                module,
+                builder,
+                func_writer,
+                ptr_ty,
+                val,
+                cast_from,
+                *payload_ty,
+                cast_to,
+                1,
+                memory,
+            ));
+        }
         (_, Ty::ErrorUnion { .. }) => unreachable!(
             "the previous two arms should've caught this: {cast_from:?} -> {cast_to:?}"
         ),
